@@ -100,7 +100,8 @@ def step (s : S) (line : String) : S × String :=
     if !ready then (s, "bad-op") else
     let cl := msaSingleLinkage s.m (argBits ws "maxid") rows
     let asg := assignment cl rows.length
-    (s, s!"ok nc={cl.length} c={nlist asg} nin={nlist (clusterSizes asg cl.length)}")
+    let pre := (argNat? ws "pre").getD 0
+    (s, s!"ok nc={cl.length} c={if pre == 2 then "-" else nlist asg} nin={if pre == 3 then "-" else nlist (clusterSizes asg cl.length)}")
   | "cluster" :: _ =>
     match argNat? ws "n", arg? ws "adj" with
     | some n, some adj =>
